@@ -25,7 +25,7 @@ def csr_from_rows(n, rows, dtype=float):
 
 
 def random_pattern_rows(rng, n, density, values, diag='mixed', sym=False, shuffle=True,
-                        zero_prob=0.0):
+                        zero_prob=0.0, neg_diag_prob=0.0):
     """random square CSR rows; diag in {'all','none','mixed','zero'}"""
     ent = {}
     for i in range(n):
@@ -44,6 +44,8 @@ def random_pattern_rows(rng, n, density, values, diag='mixed', sym=False, shuffl
     for i in range(n):
         if diag == 'all' or (diag == 'mixed' and rng.random() < 0.8):
             ent[(i, i)] = abs(rng.choice(values)) * (2 if rng.random() < 0.5 else 1)
+            if neg_diag_prob and rng.random() < neg_diag_prob:
+                ent[(i, i)] = -ent[(i, i)]
         elif diag == 'zero':
             ent[(i, i)] = 0.0
         elif diag == 'mixed' and rng.random() < 0.3:
